@@ -21,9 +21,11 @@ def run(ctx):
     vals = [-6, -5, -1, 0, 2, 5, 6]
     # every position of the optimum, ties, all beyond the sentinel: 3 combinations x 1 repetition over a 7-value alphabet
     tables = [[[a], [b], [c]] for a, b, c in itertools.product(vals, repeat=3)]
+    # all 343 tables with every score beyond sys.maxsize in magnitude or not, MIN and MAX: cheap, always complete
+    progs = B.search_programs_from_tables(tables, ["MIN", "MAX"], [1], ["big"], rng)
     if q:
         tables = rng.sample(tables, 60)
-    progs = B.search_programs_from_tables(tables, ["MIN", "MAX", "MIN_SUM", "MAX_MEAN"], [1], ["1", "big", "q"], rng)
+    progs += B.search_programs_from_tables(tables, ["MIN", "MAX", "MIN_SUM", "MAX_MEAN"], [1], ["1", "big", "q"], rng)
     _batch.validate(ctx, progs, "score tables 3 combinations x 1 repetition over {-6,-5,-1,0,2,5,6} (x 2**61: beyond sys.maxsize), serial", chunk=800)
     n = 40 if q else 400
     tables = []
